@@ -136,7 +136,11 @@ pub enum Expr {
     True,
     False,
     Num(f64),
+    /// a number literal written with explicit source text; the second field is the double it denotes
+    RawNum(String, f64),
     Str(String),
+    /// a string literal written with explicit source text (escape forms); the second field is its value
+    RawStr(String, String),
     Interp(Vec<Part>),
     Var(Id),
     Assign(Id, Box<Expr>),
@@ -399,7 +403,7 @@ impl Printer {
     /// print `e` where an operand of at least precedence `min` is required
     pub fn expr(&mut self, e: &Expr, min: u8) {
         let p = expr_prec(e);
-        let atomic = matches!(e, Expr::Nil | Expr::True | Expr::False | Expr::Str(_) | Expr::Var(_) | Expr::SelfRef | Expr::CapSelf | Expr::Paren(_) | Expr::VecLit(_) | Expr::TupleLit(_) | Expr::MapLit(_) | Expr::Interp(_))
+        let atomic = matches!(e, Expr::Nil | Expr::True | Expr::False | Expr::Str(_) | Expr::RawStr(..) | Expr::RawNum(..) | Expr::Var(_) | Expr::SelfRef | Expr::CapSelf | Expr::Paren(_) | Expr::VecLit(_) | Expr::TupleLit(_) | Expr::MapLit(_) | Expr::Interp(_))
             || matches!(e, Expr::Num(n) if p == PREC_PRIMARY && n.is_finite());
         let need = p < min || (self.full_parens && !atomic && min > PREC_ASSIGN);
         if need {
@@ -430,8 +434,13 @@ impl Printer {
                     self.w(&t);
                 }
             }
+            Expr::RawNum(t, _) => self.w(t),
             Expr::Str(t) => {
                 let t = format!("\"{}\"", escape_str(t));
+                self.w(&t);
+            }
+            Expr::RawStr(src, _) => {
+                let t = format!("\"{}\"", src);
                 self.w(&t);
             }
             Expr::Interp(parts) => {
